@@ -51,6 +51,10 @@ func (c *Ctx) genHistory(n int, uris []string) []POp {
 			ops = append(ops, POp{Op: "save", URI: u, Text: d.text})
 		case d.open && strings.HasSuffix(u, ".goht") && c.R.Intn(3) == 0:
 			ops = append(ops, c.probe(u, d.text))
+		case !d.open && d.version > 0 && c.R.Intn(6) == 0:
+			// a change notification for a document that was closed (the editor and the proxy disagree about what is
+			// open): nothing may reach the downstream server for a file it has closed
+			ops = append(ops, POp{Op: "change", URI: u, Text: txt, Version: d.version + 1})
 		case !d.open:
 			d.open, d.version, d.text = true, d.version+1, txt
 			ops = append(ops, POp{Op: "open", URI: u, Text: txt, Version: d.version})
@@ -215,6 +219,9 @@ func c08(c *Ctx) {
 			case "open":
 				d.open, d.text, d.version = true, op.Text, op.Version
 			case "change":
+				if !d.open && tmpl {
+					break // refused: there is no such buffer
+				}
 				d.text, d.version = op.Text, op.Version
 				if k := strings.LastIndex(d.text, "\x1e"); k >= 0 {
 					d.text = d.text[k+1:]
